@@ -2,11 +2,11 @@
 # usage: tools/lane_eval.sh <lane#> <src_dir> <seeded_id> <props>   — evaluate one delivered seeded change in scratch lane
 # /tmp/lane<k>/{verif (clone of /verif), repo (worktree of /repo HEAD)}; copies the resulting seeded/<id> back to /verif/seeded.
 set -e
-K=$1; SRC=$2; SID=$3; PROPS=$4
+K=$1; SRC=$2; SID=$3; PROPS=$4; EXTRA=$5
 S=/tmp/lane$K
 cd $S/verif
 git -C $S/repo checkout -q -- . ; git -C $S/repo clean -fdq
-VERIF_REPO=$S/repo timeout 3000 python3 tools/eval_mutant.py "$SRC" "$SID" --props "$PROPS" > $S/eval-$SID.log 2>&1 || true
+VERIF_REPO=$S/repo timeout 3000 python3 tools/eval_mutant.py "$SRC" "$SID" --props "$PROPS" $EXTRA > $S/eval-$SID.log 2>&1 || true
 git -C $S/repo checkout -q -- . ; git -C $S/repo clean -fdq
 if [ -d seeded/$SID ]; then rm -rf /verif/seeded/$SID; cp -r seeded/$SID /verif/seeded/$SID; fi
 tail -4 $S/eval-$SID.log | cut -c1-300
